@@ -27,6 +27,8 @@ type ROp struct {
 	A    int    `json:"a,omitempty"`    // exponent of X^a - 1
 	Pt   GSpec  `json:"pt,omitempty"`   // plaintext of addpt
 	PtAs string `json:"ptAs,omitempty"` // poly | int64 | uint64
+	// the rgsw.Plaintext is built at the maximum level of Q although the ciphertext lives at a lower one
+	PtMax bool `json:"ptMax,omitempty"`
 }
 
 // OpsCase is one program.
@@ -78,6 +80,9 @@ func genOps(t *rapid.T) OpsCase {
 				op.Pt = GSpec{Kind: "const", A: rapid.IntRange(-9, 9).Draw(t, l+"_c")}
 			default:
 				op.Pt = GSpec{Kind: "const", A: rapid.IntRange(0, 9).Draw(t, l+"_c")}
+			}
+			if c.LevelQ < len(c.Params.Q)-1 {
+				op.PtMax = rapid.Bool().Draw(t, l+"_ptmax")
 			}
 		}
 		c.Ops = append(c.Ops, op)
@@ -177,12 +182,20 @@ func runOps(c OpsCase, rec *h.Rec) error {
 				value = int64(op.Pt.A)
 			case "uint64":
 				value = uint64(op.Pt.A)
+			}
+			ptLevel := c.LevelQ
+			if op.PtMax {
+				ptLevel = params.MaxLevelQ()
+				rec.Class("addpt:plaintext-level>ciphertext-level")
+			}
+			switch op.PtAs {
+			case "int64", "uint64":
 			default:
-				p := params.RingQ().AtLevel(c.LevelQ).NewPoly()
-				setPoly(params, c.LevelQ, g, p)
+				p := params.RingQ().AtLevel(ptLevel).NewPoly()
+				setPoly(params, ptLevel, g, p)
 				value = p
 			}
-			pt, err := rgsw.NewPlaintext(params, value, c.LevelQ, c.LevelP, c.W)
+			pt, err := rgsw.NewPlaintext(params, value, ptLevel, c.LevelP, c.W)
 			if err != nil {
 				return h.Failf("C20:rgsw.NewPlaintext:error", "NewPlaintext(%s): %v", op.PtAs, err)
 			}
